@@ -6,8 +6,41 @@ def run(ctx):
     ctx.clause = ("the harmless / harmful masks partition the category space, every category a categoriser assigns is "
                   "in its mask, the filter consults only the allowed mask, and the masks are switched off exactly "
                   "under !--harmless / --no-harmful")
-    ctx.rules = ["R-CATPART", "R-OPTWIRE"]
+    ctx.rules = ["R-CATPART", "R-OPTWIRE", "R-PEELTOTAL"]
     P = ctx.program(cr.UNITS)
     cr.check_catpart(ctx, P)
     cr.check_optwire(ctx, P)
+    check_peeltotal(ctx, P)
     ctx.assume("whether a particular change is classified harmless is the categorisers' runtime behaviour")
+
+
+
+def check_peeltotal(ctx, P):
+    """R-PEELTOTAL (who-may-call): libabigail represents `const volatile T` as two nested qualified_type_def nodes, so
+    "the type without its top-level qualifiers" is only what the total peel helpers (peel_qualified_type,
+    peel_qualified_or_typedef_type, ...) return.  In the harmless-change categorisers (namespace
+    abigail::comparison::filtering) qualified_type_def::get_underlying_type() - one level - must not be called: a
+    predicate built on it misses doubly qualified types and the change is no longer categorised as harmless."""
+    from engine.facts import expr_str
+    n_peel = 0
+    for f in sorted(P.all_funcs(), key=lambda x: (x.file, x.l0)):
+        if f.dep or not f.q.startswith("abigail::comparison::filtering::"):
+            continue
+        bad = []
+        for n, d in f.calls():
+            if d["n"].startswith("peel_"):
+                n_peel += 1
+            if d["n"] == "get_underlying_type" and (d.get("cls") or "").endswith("qualified_type_def"):
+                bad.append(n)
+        if bad:
+            ctx.analysed(f)
+            for i, n in enumerate(bad):
+                ctx.ob("R-PEELTOTAL", "filtering::%s: the unqualified type is obtained with a total peel%s" % (
+                    f.n, "" if i == 0 else " #%d" % (i + 1)), False, f.loc(n),
+                    "`%s` removes one qualifier node only: for `const volatile T` it yields `const T`/`volatile T`, the "
+                    "comparison with the other side's unqualified type fails and a top-level cv-qualifier change is no "
+                    "longer filtered as harmless" % expr_str(f, n)[:70])
+    ctx.ob("R-PEELTOTAL", "no categoriser peels a qualified type by one level", True, "",
+           "%d call(s) of the total peel helpers in abigail::comparison::filtering, none of "
+           "qualified_type_def::get_underlying_type()" % n_peel)
+    ctx.floor("R-PEELTOTAL", "calls of the peel_* helpers in the categorisers", n_peel, 10)
